@@ -966,10 +966,11 @@ func HandleStore(deps ServerDeps, conn net.Conn, tag string, parts []string, sta
 }
 
 // hasFlag reports whether a space-separated flags string contains the given flag
-// (whole flags are compared: "NonJunk" does not contain the flag "Junk")
+// (whole flags are compared: "NonJunk" does not contain the flag "Junk";
+// flag names are case-insensitive, RFC 3501 section 9)
 func hasFlag(flags string, flag string) bool {
 	for _, f := range strings.Fields(flags) {
-		if f == flag {
+		if strings.EqualFold(f, flag) {
 			return true
 		}
 	}
@@ -1007,13 +1008,33 @@ func flagSetToString(flagSet map[string]bool) string {
 	return strings.Join(flags, " ")
 }
 
+// setFlag adds a flag to the set unless it is already there in another
+// spelling (flag names are case-insensitive, RFC 3501 section 9)
+func setFlag(flagMap map[string]bool, flag string) {
+	for f := range flagMap {
+		if strings.EqualFold(f, flag) {
+			return
+		}
+	}
+	flagMap[flag] = true
+}
+
+// clearFlag removes a flag from the set, whatever its spelling
+func clearFlag(flagMap map[string]bool, flag string) {
+	for f := range flagMap {
+		if strings.EqualFold(f, flag) {
+			delete(flagMap, f)
+		}
+	}
+}
+
 // CalculateNewFlags determines the new flags based on the operation
 func CalculateNewFlags(currentFlags string, newFlags []string, operation string) string {
 	// Parse current flags into a map
 	flagMap := make(map[string]bool)
 	if currentFlags != "" {
 		for _, flag := range strings.Fields(currentFlags) {
-			flagMap[flag] = true
+			setFlag(flagMap, flag)
 		}
 	}
 
@@ -1022,24 +1043,24 @@ func CalculateNewFlags(currentFlags string, newFlags []string, operation string)
 		// Replace all flags (except \Recent which server manages)
 		flagMap = make(map[string]bool)
 		for _, flag := range newFlags {
-			if flag != "\\Recent" {
-				flagMap[flag] = true
+			if !strings.EqualFold(flag, "\\Recent") {
+				setFlag(flagMap, flag)
 			}
 		}
 
 	case "+FLAGS":
 		// Add flags
 		for _, flag := range newFlags {
-			if flag != "\\Recent" {
-				flagMap[flag] = true
+			if !strings.EqualFold(flag, "\\Recent") {
+				setFlag(flagMap, flag)
 			}
 		}
 
 	case "-FLAGS":
 		// Remove flags
 		for _, flag := range newFlags {
-			if flag != "\\Recent" {
-				delete(flagMap, flag)
+			if !strings.EqualFold(flag, "\\Recent") {
+				clearFlag(flagMap, flag)
 			}
 		}
 	}
@@ -1618,7 +1639,7 @@ func HandleExpunge(deps ServerDeps, conn net.Conn, tag string, state *models.Cli
 	// We need to get the sequence numbers before deletion
 	rows, err := userDB.Query(`
 		SELECT id, uid FROM message_mailbox
-		WHERE mailbox_id = ? AND instr(' ' || flags || ' ', ' \Deleted ') > 0
+		WHERE mailbox_id = ? AND instr(' ' || lower(flags) || ' ', ' \deleted ') > 0
 		ORDER BY uid ASC
 	`, state.SelectedMailboxID)
 
